@@ -277,5 +277,26 @@ check("C19",
                 "accounting as the oracle in every final state",
       engine="explore", design="3/C19", deadline={"quick": 150, "thorough": 1500})
 
+check("C18",
+      passes=[dict(name="C18", src=["harness/C18.cpp"], shared=ZOO, deps=ZOO_DEPS, variant="fast", shards={"quick": 16, "thorough": 16})],
+      rule="(a) every expression node of the zoo (every factory row + the implementation classes no factory returns; 1 (quick) / 4 "
+           "(thorough) operand rotations) offered to xpr_expr, xpr_stmt, xpr_decl and, for types, xpr_type -- each case in a forked "
+           "child with a 1 MiB stack, 5 s CPU and 1 MiB output budget, outcome classified by the parent; (b) literals spelled by each "
+           "of the 256 single bytes, 225 ordered pairs and 45 mixed words from {0,1,2,3,7,8,9,10,13,27,\\,\",a,0x80,0xff}, bare / as "
+           "operand / as statement; (c) 5 delimiters x 5 contents x 3 contexts; (d) EVERY statement tree of depth <= 3 over 18 forms "
+           "(86190 trees, from initial indentation 0 and 6), plus in thorough every unary form over every depth-3 tree and every "
+           "binary form pairing a depth-3 tree with a leaf. Oracle per case: outcome is completion or std::logic_error (never SIGSEGV, "
+           "timeout, runaway output or another exception); stream flags/fill/width/precision unchanged; a nesting level, a position "
+           "and a file/line/column written afterwards through the same printer read ' 10 9 ' and 'F8:64:100'; no byte < 0x20 except "
+           "newline (nor 0x7f) that is not in a spelling of the graph; Printer::indent() restored after each completed top-level "
+           "statement or declaration. distinct_nontrivial = statement trees printed to completion.",
+      text="Every node kind x entry point, every literal byte, every delimiter and every statement nesting up to the bound is "
+           "printed by the real printer; fatal outcomes are observed in sandbox children.",
+      note="A construct the printer refuses with std::logic_error is admissible. Stack exhaustion within 1 MiB is taken as "
+           "unbounded recursion (the deepest legitimate print of the bounded fragment needs < 40 KiB).",
+      technique="complete enumeration of node kind x printer entry point and of statement trees up to a depth bound on the "
+                "implementation, sandboxed executions with outcome classification",
+      engine="zoo", design="3/C18", deadline={"quick": 200, "thorough": 1500})
+
 # Properties not claimed (with the reason that goes to MANIFEST.not_applicable).
 NOT_CLAIMED = {}
